@@ -121,7 +121,7 @@ def run_case(ctx, kind_, idx):
                 wv = wv0 if wv0 is not None else Weaver(x.copy(), y.copy())
                 n = int(rng.choice([2, 3, 5, 10, 100, 500, int(rng.integers(2, 501))]))
                 info["n"] = n
-                wv.interpolate(n=n, method=method)
+                wv.interpolate(n) if method == "linear" and rng.integers(0, 2) else wv.interpolate(n=n, method=method)
                 gx, gy = wv.get()
                 ctx.judged()
                 ctx.monitor("c13:weaver_grid")
@@ -163,7 +163,17 @@ def run_case(ctx, kind_, idx):
                         ctx.count("integer_dtype_grid")
                     else:
                         garg = new_x if rng.integers(0, 2) else [float(v) for v in new_x]
-                    got = interpolate(xin, yin, garg, method=method)
+                    if method == "constant" and rng.integers(0, 3) == 0:
+                        # documented keyword of the piecewise-constant method: value to the left of the data
+                        left_value = float(rng.normal(0, 3))
+                        info["left"] = left_value
+                        if rng.integers(0, 2) and isinstance(garg, np.ndarray) and garg.dtype.kind == "f":
+                            garg = np.sort(np.append(garg, [x[0], x[0] - abs(rng.normal(0, 1)) - 1e-9]))
+                            new_x = np.asarray(garg, dtype=float)
+                        got = interpolate(xin, yin, garg, method=method, left=left_value)
+                    else:
+                        got = interpolate(xin, yin, garg) if method == "linear" and rng.integers(0, 2) else \
+                            interpolate(xin, yin, garg, method=method)
                 ctx.judged()
             mag = float(np.max(np.abs(y))) or 1.0
             gaps = np.diff(x)
@@ -192,7 +202,7 @@ def run_case(ctx, kind_, idx):
                 ctx.monitor("c13:constant")
                 for j, q in enumerate(new_x):
                     i = S.lower(xl, float(q), True)
-                    want = float(y[0]) if q < x[0] else float(y[i])
+                    want = (info["left"] if "left" in info else float(y[0])) if q < x[0] else float(y[i])
                     if float(got[j]) != want:
                         ctx.violation("constant_value", cid, {"at": float(q), "got": float(got[j]), "want": want,
                                                               "case": info})
